@@ -100,13 +100,13 @@ PROPS = {
         'not_decided': ['HTS wildcard semantics of question matching', 'split_sections / header serde / window rows / tree text -> node table (parse_node, convert_tree)', 'f32 little-endian PDF block offsets in parse_model', 'options -> Condition (load_model option loop)'],
     },
     'C18': {
-        'technique': 'Kani harnesses (built-in panic / overflow / index checks) on the loader\'s own slicing, integer accumulation and tree conversion',
+        'technique': 'Kani harnesses (built-in panic / overflow / index checks) on the loader\'s own slicing, integer accumulation and the PDF-length expressions of parse_data_section (cut from its text every run)',
         'level_text': 'function-level: for every range / digit string / reference in the stated bounds the mechanism returns Ok or Err and never panics',
-        'level_note': 'PARTIAL: nom combinators, serde, jlabel-question parse and regex are outside the verifier (assumed panic-free, non-looping, allocation-capped); whole-file quantification over arbitrary bytes is not reached; pdf_len / num_states*2 arithmetic in parse_data_section not covered',
+        'level_note': 'PARTIAL: nom combinators, serde, jlabel-question parse and regex are outside the verifier (assumed panic-free, non-looping, allocation-capped); whole-file quantification over arbitrary bytes is not reached; convert_tree is out of CBMC\'s reach (repaired, demonstrated natively)',
         'verus': [],
         'assumptions': ['nom 8, serde, jlabel-question, regex never panic and never loop on empty matches (not verified)'],
         'trusted_base': [],
-        'not_decided': ['whole-file quantifier (any byte sequence)', 'allocation bounds', 'pdf_len arithmetic overflow in parse_data_section', 'deserialize_hashmap key slicing'],
+        'not_decided': ['whole-file quantifier (any byte sequence)', 'allocation bounds', 'convert_tree (question / node lookups)', 'deserialize_hashmap key slicing'],
     },
     'C13': {
         'technique': 'Verus contracts on the extracted text of LineSpectralPairs::{lsp2lpc, lsp2mgc} (IEEE ops, cos, exp uninterpreted); the two iterator-chain holes and an API-level polynomial-product harness checked by Kani',
@@ -135,10 +135,10 @@ PROPS = {
         'not_decided': ['all samples finite inside the stable range; non-finite only after runaway growth', 'Model::get_parameter todo!() unreachable only for well-formed models (precondition lookup_ok in unit tree)'],
     },
     'C05': {
-        'technique': 'Verus contract on the extracted text of Mask::boundary_distances; Kani harnesses on Mask::{create,fill} and MlpgAdjust::create (argument capture by stubbing calc_wuw_and_wum)',
-        'level_text': 'unbounded proof of the boundary distances (voiced run lengths to the nearest unvoiced frame or edge) for any number of frames; bounded: frame -> state expansion, unvoiced frames carry NODATA, dynamic windows whose span touches an utterance edge or an unvoiced frame get zero precision (width-3 and width-5 windows)',
-        'level_note': 'PARTIAL: that calc_wuw_and_wum accumulates W\'U^-1W and that LDL + substitutions solve the normal equations to rounding accuracy is NOT decided (real-number linear algebra; no float semantics in Verus, symbolic products intractable in CBMC)',
-        'verus': ['mask', 'window'],
+        'technique': 'Verus contracts on the extracted text of Mask::boundary_distances, Window accessors and MlpgMatrix::{ldl_factorization, substitutions, solve}; Kani harnesses on Mask::{create,fill} and MlpgAdjust::create (argument capture by stubbing calc_wuw_and_wum)',
+        'level_text': 'unbounded proof of the boundary distances (voiced run lengths to the nearest unvoiced frame or edge) for any number of frames; unbounded proof (any length, any band width, IEEE ops uninterpreted) that ldl_factorization is the textbook in-place banded LDL\' recursion, that substitutions is forward then backward substitution over ALL width-1 off-diagonals, and that solve composes them leaving the right-hand side untouched, all panic-free on a well-formed matrix; bounded: frame -> state expansion, unvoiced frames carry NODATA, dynamic windows whose span touches an utterance edge or an unvoiced frame get zero precision (width-3 and width-5 windows)',
+        'level_note': 'PARTIAL: that calc_wuw_and_wum accumulates W\'U^-1W (custom window iterators: outside Verus) and that the LDL\' recursions solve the normal equations to rounding accuracy is NOT decided (real-number linear algebra; no float semantics in Verus, symbolic products intractable in CBMC); the solver contracts pin the recursions, not their numerical meaning',
+        'verus': ['mask', 'window', 'mlpgsolve'],
         'assumptions': [], 'trusted_base': [],
         'not_decided': ['maximum-likelihood optimality: W\'U^-1W c = W\'U^-1 mu to rounding accuracy'],
     },
